@@ -98,6 +98,11 @@ pub struct Case {
     /// a real directory literally named `<std>` inside the project
     pub std_dir: bool,
     pub fault: Option<Fault>,
+    /// write the output over this data file of the case (patching an image in
+    /// place): every input is read before any output is written, so what the
+    /// inclusion functions deliver is the content before the run
+    #[serde(default)]
+    pub out_over: Option<String>,
 }
 
 pub const SENTINEL_ASM: &[u8] = b"#d8 0xEE, 0xED, 0xEC, 0xEB ; sentinel outside the project\n";
@@ -109,6 +114,11 @@ fn esc(s: &str) -> String {
 }
 
 impl Case {
+    /// project-relative name of the (single) output file
+    pub fn out_name(&self) -> String {
+        self.out_over.clone().unwrap_or_else(|| "out.txt".to_string())
+    }
+
     pub fn digest(&self) -> String {
         hex128(digest128(serde_json::to_string(self).unwrap().as_bytes()))
     }
@@ -244,7 +254,7 @@ impl Case {
         }
         let mut spec = Spec::default();
         spec.roots = self.roots.clone();
-        spec.groups = vec![Group { format: Some("binstr".to_string()), out: Some("out.txt".to_string()), print: false }];
+        spec.groups = vec![Group { format: Some("binstr".to_string()), out: Some(self.out_name()), print: false }];
         spec.quiet = true;
         Job::from_spec("c14", disk, spec)
     }
@@ -372,7 +382,7 @@ fn long_chain_case(rng: &mut Rng) -> Case {
         }
         files.push(CFile { path: path(k), once: false, items, once_pos: 0 });
     }
-    Case { files, data: vec![], roots: vec!["main.asm".to_string()], defs_path: None, std_dir: false, fault: None }
+    Case { files, data: vec![], roots: vec!["main.asm".to_string()], defs_path: None, std_dir: false, fault: None, out_over: None }
 }
 
 /// One file spliced two or three times, each time under another global
@@ -393,7 +403,7 @@ fn twice_included_labels_case(rng: &mut Rng) -> Case {
         part.items.push(Item::Label { local: true, id: 0x40 + l as u8 });
         part.items.push(Item::Marker(0x50 + l as u8));
     }
-    Case { files: vec![main, part], data: vec![], roots: vec!["main.asm".to_string()], defs_path: None, std_dir: false, fault: None }
+    Case { files: vec![main, part], data: vec![], roots: vec!["main.asm".to_string()], defs_path: None, std_dir: false, fault: None, out_over: None }
 }
 
 pub fn draw_case(rng: &mut Rng) -> Case {
@@ -642,7 +652,9 @@ pub fn draw_case(rng: &mut Rng) -> Case {
     } else {
         None
     };
-    Case { files, data, roots, defs_path, std_dir, fault }
+    // now and then the output goes over one of the data files
+    let out_over = if !data.is_empty() && rng.chance(1, 20) { Some(data[rng.below(data.len())].path.clone()) } else { None };
+    Case { files, data, roots, defs_path, std_dir, fault, out_over }
 }
 
 /// The exhaustive range grid (e): one data file of each kind and length
@@ -665,13 +677,14 @@ pub fn range_case(kind: IncKind, n: usize, start: Option<usize>, len: Option<usi
     files[0].items.push(Item::Marker(0x11));
     files[0].items.push(Item::IncFn { kind, spelling, start, len, via });
     files[0].items.push(Item::Marker(0x12));
-    Case { files, data: vec![DataFile { path: dpath, content }], roots: vec!["main.asm".to_string()], defs_path, std_dir: false, fault: None }
+    Case { files, data: vec![DataFile { path: dpath, content }], roots: vec!["main.asm".to_string()], defs_path, std_dir: false, fault: None, out_over: None }
 }
 
 // --------------------------------------------------------------------- oracle
 
 fn bits_of_output(rec: &Record) -> Option<String> {
-    rec.writes.iter().find(|w| w.spelling == "out.txt" && w.complete).map(|w| String::from_utf8_lossy(&w.data).to_string())
+    // (one output group per case: its file, whatever it is called)
+    rec.writes.iter().rev().find(|w| w.complete).map(|w| String::from_utf8_lossy(&w.data).to_string())
 }
 
 /// The case with every conditional include removed (what the assembler
@@ -806,6 +819,12 @@ pub fn slash_twin(case: &Case) -> Option<Case> {
         }
         s.chars().map(|c| if c == '/' { '\\' } else if c == '\\' { '/' } else { c }).collect()
     };
+    // a *source* file read as data would carry its own text — spellings
+    // included — into the output: the twins then differ by construction
+    let asm_as_data = case.files.iter().any(|f| f.items.iter().any(|i| matches!(i, Item::IncFn { spelling, .. } if spelling.trim_end_matches(|c| c == '/' || c == '\\' || c == '.').ends_with(".asm"))));
+    if asm_as_data {
+        return None;
+    }
     let mut twin = case.clone();
     let mut changed = false;
     for f in twin.files.iter_mut() {
@@ -1069,7 +1088,15 @@ fn check_proc_record_inner(case: &Case, rec: &ProcRecord) -> Vec<Violation> {
             break;
         }
     }
-    let out_bits = rec.changed.get(&format!("{}/out.txt", PROJ)).map(|t| String::from_utf8_lossy(&crate::disk::b64::from_text(t)).to_string());
+    let mut out_bits = rec.changed.get(&format!("{}/{}", PROJ, case.out_name())).map(|t| String::from_utf8_lossy(&crate::disk::b64::from_text(t)).to_string());
+    if out_bits.is_none() && rec.exit == Some(0) {
+        // the output went over a data file and left it as it was (the
+        // listing of its bits happens to be its old text): "unchanged" is
+        // then what the file holds
+        if let Some(d) = case.out_over.as_ref().and_then(|o| case.data.iter().find(|d| &d.path == o)) {
+            out_bits = Some(String::from_utf8_lossy(&d.content).to_string());
+        }
+    }
     if let Some(bits) = &out_bits {
         if bits.contains(SENTINEL_BITS) {
             v.push(Violation::new("sentinel-in-output", format!("content of a file outside the project appears in the output of the real binary | {}", ctx)));
